@@ -7,6 +7,7 @@ Deductive part (real code), with hashes / JSON assumed injective on content:
   * compute_pipeline_config_id : the hashed pre-image is the list of (uuid, semantic id) pairs sorted by uuid: equal pre-images => equal sets of pairs.
   * build_canonical_spec : loop invariant - node j's canonical mapping carries declaration_index j and its uuid is uuid5 of that
     mapping's JSON; hence node uuids of one pipeline are pairwise distinct (even for textually identical nodes), for any length.
+  * variable_domain_signature (explicit sequences): the digest is taken over the whole value list, count = its length.
 Bounded stand-in (labelled bounded): single-point semantic mutations of configurations (replay/c05_bounded.py).
 """
 from __future__ import annotations
@@ -246,7 +247,63 @@ class UuidSpec(Spec):
         return MISSING
 
 
-TASKS = [h_semantic_id_determines, h_config_id_determines, h_distinct_uuids]
+
+PSF = "semantiva/data_processors/parametric_sweep_factory.py"
+
+
+class DomainSpec(PureLibMixin, BaseSpec):
+    """variable_domain_signature on an explicit value sequence: which list does the digest cover?"""
+
+    def __init__(self):
+        super().__init__(PROP)
+        self.inline |= {(SID, "variable_domain_signature")}
+        self.DIGEST_ARG = None
+
+    def call_override(self, I, f, args, kwargs, star):
+        fn = f.func if isinstance(f, O.HBound) else f
+        if isinstance(fn, O.HFunc) and fn.node.name == "_sha256_json":
+            self.DIGEST_ARG = (I.lift(args[0]), I.st.h.copy())
+            return vstr(z3.Function("Sha256Json", V, core.VArr, core.I, z3.StringSort())(I.lift(args[0]),
+                        z3.Select(I.st.h.larr, V.id(I.lift(args[0]))), z3.Select(I.st.h.llen, V.id(I.lift(args[0])))))
+        return MISSING
+
+
+def h_domain_signature(spec):
+    s2 = DomainSpec()
+    s2.obligations, s2._seen, s2.undecided, s2.functions, s2.used_contracts = spec.obligations, spec._seen, spec.undecided, spec.functions, spec.used_contracts
+    fn_info(s2, SID, "variable_domain_signature")
+
+    def body(I):
+        st = I.st
+        seq_ci = cls_of(I, PSF, "SequenceSpec")
+        vals = in_list(I, "values")
+        n = z3.Select(st.h.llen, V.id(vals))
+        st.assume(n >= 0)
+        sp = in_inst(I, "spec", seq_ci, {"values": vals})
+        h0 = st.h.copy()
+        s2.DIGEST_ARG = None
+        out = E.execute(I, E.hfunc(SID, "variable_domain_signature"), [sp])
+        if out[0] != "return":
+            s2.oblige(I, "domain-signature/never-raises-on-an-explicit-sequence", z3.BoolVal(False), meta={"exc": repr(out[1])})
+            return
+        s2.oblige(I, "domain-signature/the-sequence-is-digested", z3.BoolVal(s2.DIGEST_ARG is not None))
+        if s2.DIGEST_ARG is None:
+            return
+        arg, ha = s2.DIGEST_ARG
+        j = fresh("any_index", core.I)
+        an = z3.Select(ha.llen, V.id(arg))
+        s2.oblige(I, "domain-signature/the-digest-covers-every-value-of-the-sequence(first,interior,last)",
+                  z3.And(V.is_ref(arg), an == n,
+                         z3.Implies(z3.And(j >= 0, j < n), z3.Select(z3.Select(ha.larr, V.id(arg)), j) == z3.Select(z3.Select(h0.larr, V.id(vals)), j))),
+                  meta={"witness": "sequence-element"}, hints=[j])
+        res = out[1]
+        h = st.h
+        s2.oblige(I, "domain-signature/count-is-the-length", z3.Select(dval(h, res), vstr("count")) == V.int(n))
+    E.run_function(s2, "variable_domain_signature", body)
+    spec.path_count += s2.path_count
+    spec.assumptions |= s2.assumptions
+
+TASKS = [h_semantic_id_determines, h_config_id_determines, h_distinct_uuids, h_domain_signature]
 FACTORIES = {"h_distinct_uuids": UuidSpec}
 
 
